@@ -3,8 +3,9 @@ CONSTANTS
   NConn = 1
   MaxIn = 3
   MaxSteps = 6
-  Classes = {"GoodKA", "GoodClose", "BadLine", "BadHeader", "BadCL", "BadChunk", "BadEscape", "Nul", "TlsHello", "Truncate", "Rest"}
+  Classes = {"GoodKA", "GoodClose", "BadLine", "BadHeader", "BadCL", "BadChunk", "BadEscape", "Nul", "TlsHello", "TlsCut", "Truncate", "Rest"}
   Racing = TRUE
-  DefectSets = {{}, {"keepbuf"}, {"echo505"}, {"keepbuf", "echo505"}}
+  Linger = FALSE
+  DefectSets = {{}, {"stalebuf"}}
 INVARIANT TypeOK
 CHECK_DEADLOCK FALSE
